@@ -134,7 +134,16 @@ pub fn bodies(max_variants: usize) -> Vec<(String, Body)> {
     }
     for seq in seqs {
         let vs: Vec<String> = seq.iter().enumerate().map(|(i, s)| s.body(&format!("V{i}"))).collect();
-        v.push((format!("enum Foo {{ {} }}", vs.join(", ")), Body::Enum(seq)));
+        v.push((format!("enum Foo {{ {} }}", vs.join(", ")), Body::Enum(seq.clone())));
+        // decorations that do not change any variant's shape: explicit discriminants,
+        // attributes, empty brace / paren bodies are covered by the struct entries above
+        if !seq.is_empty() && seq.len() <= 3 {
+            let vs: Vec<String> = seq.iter().enumerate().map(|(i, s)| format!("#[doc = \"d\"] {} = {}", s.body(&format!("V{i}")), i + 1)).collect();
+            v.push((format!("#[repr(u8)] enum Foo<T: Clone> where T: Copy {{ {} }}", vs.join(", ")), Body::Enum(seq.clone())));
+            // only the last variant carries a discriminant
+            let vs: Vec<String> = seq.iter().enumerate().map(|(i, s)| if i + 1 == seq.len() { format!("{} = 7", s.body(&format!("V{i}"))) } else { s.body(&format!("V{i}")) }).collect();
+            v.push((format!("enum Foo {{ {} }}", vs.join(", ")), Body::Enum(seq)));
+        }
     }
     v.push(("union Foo { a: u8, b: u16 }".into(), Body::Union));
     v
@@ -211,9 +220,9 @@ fn api_sweep_one(set_mask: usize, t: &mut Tally) {
         let shapes: Vec<Shape> = SHAPES.iter().enumerate().filter(|(i, _)| set_mask >> i & 1 == 1).map(|(_, s)| s.real()).collect();
         let set = ShapeSet::new(shapes);
         let flag = |i: usize| set_mask >> i & 1 == 1;
-        for s in SHAPES {
+        for (s, deco) in SHAPES.iter().flat_map(|s| ["", " = 3"].into_iter().map(move |d| (*s, d))) {
             let want = admits(flag(0), flag(1), flag(2), flag(3), s);
-            let di: syn::DeriveInput = syn::parse_str(&format!("enum E {{ {} }}", s.body("V"))).unwrap();
+            let di: syn::DeriveInput = syn::parse_str(&format!("enum E {{ #[doc = \"d\"] {}{deco} }}", s.body("V"))).unwrap();
             let variant = match &di.data {
                 syn::Data::Enum(e) => e.variants[0].clone(),
                 _ => unreachable!(),
